@@ -27,6 +27,8 @@ type SimSink struct {
 	Overlaps int
 	Writes   int
 	Failed   int // number of Write calls that returned an error
+	// FailedHeads holds the first byte of the data of each failed Write (attribution by content).
+	FailedHeads []byte
 }
 
 func NewSimSink(name string, log *Log) *SimSink { return &SimSink{Name: name, FailAt: -1, Log: log} }
@@ -53,6 +55,9 @@ func (s *SimSink) Write(p []byte) (int, error) {
 		}
 		err = ErrInjectedWrite
 		s.Failed++
+		if len(p) > 0 {
+			s.FailedHeads = append(s.FailedHeads, p[0])
+		}
 	}
 	s.buf = append(s.buf, p[:n]...)
 	if s.Log != nil {
